@@ -7,6 +7,7 @@ import (
 	"runtime"
 	"strconv"
 	"sync"
+	"sync/atomic"
 	"time"
 )
 
@@ -76,6 +77,7 @@ type Snapshot struct {
 type Trace struct {
 	mu     sync.Mutex
 	start  time.Time
+	next   atomic.Int64
 	Events []Event
 }
 
@@ -84,23 +86,25 @@ func NewTrace() *Trace { return &Trace{start: time.Now()} }
 // Now returns the (virtual) time since the trace began.
 func (t *Trace) Now() time.Duration { return time.Since(t.start) }
 
-// Add appends e, stamping Seq/VT/G. Returns the sequence number.
+// Add records e, stamping Seq/VT/G. Returns the sequence number.
 //
-// The position in the trace is taken first (a few tens of nanoseconds after the caller
-// got here) and the goroutine id - a stack capture, about a microsecond - is filled in
-// afterwards: where two goroutines race to report (a callback entered on one goroutine,
-// another goroutine woken by the first), the slower part must not decide the order.
+// The position in the trace is taken by an atomic counter as the very first thing (a few
+// nanoseconds after the caller got here); the slot is filled afterwards. Where two
+// goroutines race to report - a callback entered on one goroutine, another goroutine woken
+// by the first - neither the stack capture that yields the goroutine id (about a
+// microsecond) nor waiting for the trace mutex (not FIFO under contention) may decide
+// the order in which the two are recorded.
 func (t *Trace) Add(e Event) int {
-	Progress.Add(1)
-	t.mu.Lock()
-	e.Seq = len(t.Events)
+	n := int(t.next.Add(1) - 1)
+	e.Seq = n
 	e.VT = time.Since(t.start)
-	t.Events = append(t.Events, e)
-	n := e.Seq
-	t.mu.Unlock()
-	g := goid()
+	Progress.Add(1)
+	e.G = goid()
 	t.mu.Lock()
-	t.Events[n].G = g
+	for len(t.Events) <= n {
+		t.Events = append(t.Events, Event{Seq: len(t.Events), Kind: "unfilled"})
+	}
+	t.Events[n] = e
 	t.mu.Unlock()
 	return n
 }
